@@ -81,6 +81,9 @@ class Undecided(Exception):
 
 
 _idx_cache = {}
+import threading
+RENDER_LOCK = threading.Lock()
+FAMILIES = ["FixedI8", "FixedU8", "FixedI16", "FixedU16", "FixedI32", "FixedU32", "FixedI64", "FixedU64", "FixedI128", "FixedU128"]
 
 
 def get_index(path):
@@ -92,20 +95,22 @@ def get_index(path):
 def run_verus(unit, expanded, must_fail=False, sub="common"):
     """Render and verify one unit; returns dict with per-function results."""
     idx = get_index(expanded)
-    tmpl = os.path.join(ROOT, "units", unit + ".rs.tmpl")
+    base, _, fam = unit.partition("@")
+    tmpl = os.path.join(ROOT, "units", base + ".rs.tmpl")
     try:
-        text, table, linemap = rxtract.render_unit(idx, tmpl, ROOT, must_fail=must_fail)
+        with RENDER_LOCK:
+            text, table, linemap = rxtract.render_unit(idx, tmpl, ROOT, must_fail=must_fail, params={"FAM": fam} if fam else None)
     except (KeyError, rxtract.ExtractError, ValueError) as e:
         raise Undecided("unit %s: extraction failed: %s" % (unit, e))
     udir = os.path.join(WORK, "units", sub)
     os.makedirs(udir, exist_ok=True)
-    name = unit + ("_mustfail" if must_fail else "")
+    name = unit.replace("@", "_") + ("_mustfail" if must_fail else "")
     path = os.path.join(udir, name + ".rs")
     with open(path, "w") as f:
         f.write(text)
     t0 = time.time()
     cmd = ["verus", path, "--no-lifetime", "--output-json", "--time", "--error-format=json",
-           "--multiple-errors", "20", "--rlimit", VERUS_RLIMIT, "--num-threads", "4"]
+           "--multiple-errors", "20", "--rlimit", VERUS_RLIMIT, "--num-threads", "2"]
     p = subprocess.run(cmd, cwd=udir, stdout=subprocess.PIPE, stderr=subprocess.PIPE, text=True, env=ENV)
     wall = time.time() - t0
     try:
@@ -129,6 +134,16 @@ def run_verus(unit, expanded, must_fail=False, sub="common"):
     if vr.get("encountered-vir-error") or ("verified" not in vr):
         msg = "; ".join(d["message"] for d in diags[:3]) or p.stderr[-800:]
         raise Undecided("unit %s does not compile under Verus: %s" % (unit, msg))
+    n_real = len([x for x in table if not x.get("sig_only") and not x.get("assumed")])
+    if not must_fail:
+        # a run that reports an error without a located diagnostic, or that verified fewer functions than the unit
+        # contains, has not decided anything
+        located = [d for d in diags if d.get("spans")]
+        if (vr.get("encountered-error") or not vr.get("success")) and not located:
+            raise Undecided("unit %s: verus failed without a located diagnostic: %s" % (unit, p.stderr[-600:].replace("\n", " ")))
+        if vr.get("verified", 0) + vr.get("errors", 0) < n_real:
+            raise Undecided("unit %s: verus checked %d functions but the unit has %d real functions under contract" % (
+                unit, vr.get("verified", 0) + vr.get("errors", 0), n_real))
     funcs = {}
     smt_total = 0.0
     for m in js.get("times-ms", {}).get("smt", {}).get("smt-run-module-times", []):
@@ -219,9 +234,10 @@ def check_property(pid, tier, seed):
     units = list(spec.get("verus_units", []))
     if tier == "thorough":
         units += spec.get("verus_units_thorough", [])
+    units = [x for u in units for x in ([u[:-1] + f for f in FAMILIES] if u.endswith("@*") else [u])]
     results = []
     undecided = []
-    with cf.ThreadPoolExecutor(max_workers=6) as ex:
+    with cf.ThreadPoolExecutor(max_workers=10) as ex:
         futs = {ex.submit(run_verus, u, expanded, False, pid): u for u in units}
         mf = {}
         if tier == "thorough" or spec.get("must_fail_quick", True):
